@@ -60,8 +60,13 @@ def _n_rows(contexts):
 
 
 def _same_label(x, arms):
+    """membership in the arm list: same value and same type; in an arm list that mixes int and float labels (legal: Arm =
+    Union[int, float, str]) a number equal to a label is that label (Python's own list membership)"""
+    num_types = {type(a) for a in arms if type(a) in (int, float)}
     for a in arms:
         if type(x) is type(a) and x == a:
+            return True
+        if len(num_types) > 1 and type(x) in (int, float) and type(a) in (int, float) and x == a:
             return True
     return False
 
